@@ -33,7 +33,7 @@ EXPLANATION = (
     "variable, a counter running down from len(.)-1 under >= 0, or a guard comparing the index with a length). C16.h: constant propagation "
     "of the step for water_table in {0,1}: no cell of the daily tables receives the constant None (stored as NaN). C16.i: month and day of "
     "a real date are completed to a date only with a leap mock year (own positive example). C16.j: the profile-deepening while loop makes "
-    "progress on every iteration (every path from the body's entry back to the test stores into the thickness column). C16.k: prepare_weather floors the ReferenceET column of the frame it returns at a positive value on every path (biomass accumulation divides by it), and no inplace=True method is applied to a selection of a frame anywhere (no effect under copy-on-write; own positive example). C16.l: the curve-number runoff quotient, whose denominator is the rain itself when the retention is 0 (curve number 100), is evaluated only under a strict comparison of the rain with the initial abstraction. C16.m (no step beyond the window; abstract interpretation over 8 clock states, shared with C07.b): whenever the step just taken ends on or after the end date the termination test returns True - otherwise update_time reads one past the last entry of time_span and the run raises IndexError on the last day of a window that cuts a season. C16.n (T-LOOP, shared with C07.m): every while loop of the package has a visible reason to stop - a local compared with a loop-invariant bound and stepped towards it on every cycle (must-pass-through on the CFG), a countdown, a flag set from a counter test, a value recomputed from a stepped counter (listed, with the monotonicity reason), a delegated progress argument (the model's outer loop: C07.b; the profile deepening loop), or a listed convergence search that is preceded on every path by a guard raising when a parameter its convergence needs is <= 0. C16.o (the top soil keeps a compartment): every thickness store of the deepening loop concerns a compartment below the top soil (guarded by dzsum > z_top) or is followed on every path by z_top = max(z_top, first thickness) - otherwise a one-compartment profile has no compartment ending within z_top and root_zone_water's assertion fails. NOT decided: numeric assert "
+    "progress on every iteration (every path from the body's entry back to the test stores into the thickness column). C16.k: prepare_weather floors the ReferenceET column of the frame it returns at a positive value on every path (biomass accumulation divides by it), and no inplace=True method is applied to a selection of a frame anywhere (no effect under copy-on-write; own positive example). C16.l: the curve-number runoff quotient, whose denominator is the rain itself when the retention is 0 (curve number 100), is evaluated only under a strict comparison of the rain with the initial abstraction. C16.m (no step beyond the window; abstract interpretation over 8 clock states, shared with C07.b): whenever the step just taken ends on or after the end date the termination test returns True - otherwise update_time reads one past the last entry of time_span and the run raises IndexError on the last day of a window that cuts a season. C16.n (T-LOOP, shared with C07.m): every while loop of the package has a visible reason to stop - a local compared with a loop-invariant bound and stepped towards it on every cycle (must-pass-through on the CFG), a countdown, a flag set from a counter test, a value recomputed from a stepped counter (listed, with the monotonicity reason), a delegated progress argument (the model's outer loop: C07.b; the profile deepening loop), or a listed convergence search that is preceded on every path by a guard raising when a parameter its convergence needs is <= 0. C16.o (the top soil keeps a compartment): every thickness store of the deepening loop concerns a compartment below the top soil (guarded by dzsum > z_top) or is followed on every path by z_top = max(z_top, first thickness) - otherwise a one-compartment profile has no compartment ending within z_top and root_zone_water's assertion fails. C16.p (a rule the code follows at every instance): a division whose divisor is exactly a field of the crop state (ccx_w, ccx_w_ns, ccx_early_sen - 0 at a season's start and once the canopy is gone) is control dependent on a test of that very field. NOT decided: numeric assert "
     "failures, non-finite results from run-time values, pandas-internal errors.")
 
 L = frozenset
@@ -771,6 +771,40 @@ def deepening_progress(chk, prog):
     chk.floor("C16.o", n_o, 1, "thickness stores of the deepening loop")
 
 
+def state_field_divisors(chk, prog):
+    """C16.p (guarded divisors - a rule the code follows at every instance): a division whose divisor is exactly a field of the crop state
+    (`x / NewCond.ccx_w`, `.. / NewCond.ccx_early_sen`) - a quantity that is 0 at the start of a season and after the canopy is gone - is
+    control dependent on a test of that very field. The field may be guarded inside a callee for other uses; the division itself must not
+    run before the test (a "de-duplication" that moves the guard into a helper but leaves the quotient in front of the call divides 0 by 0)."""
+    from ..common import step_roles
+    roles = step_roles(prog)
+    n = 0
+    for key in sorted(roles.reached):
+        fi = prog.funcs[key]
+        flow = flow_of(fi)
+        cfg = flow.cfg
+        for d in walk_no_nested(fi.node):
+            if not (isinstance(d, ast.BinOp) and isinstance(d.op, ast.Div) and isinstance(d.right, ast.Attribute)):
+                continue
+            if not any(p.startswith("STATE.") for p in roles.paths(fi, d.right)):
+                continue
+            nid = flow.node_of(d)
+            if nid is None:
+                continue
+            n += 1
+            chk.fn(key)
+            name = norm(d.right)
+            where = f"{fi.module}:{fi.qualname}"
+            construct = f"... / {name}"
+            guarded = any(cfg.nodes[t].kind == "test" and any(norm(y) == name for y in ast.walk(cfg.nodes[t].ast)) for t, _ in cfg.transitive_control_deps(nid))
+            if guarded:
+                chk.ok("C16.p", where, construct, "under a test of the field itself")
+            else:
+                chk.violation("C16.p", where, construct, f"division by the state field {name} with no test of that field on the way: it is 0 at the start of a season and when "
+                              "the canopy is gone (ZeroDivisionError, or 0/0 = NaN with numpy scalars)", loc=fi.loc(d))
+    chk.floor("C16.p", n, 3, "divisions by a field of the crop state below the daily step")
+
+
 def run(chk, prog, tier):
     from ._siblings import yield_clock_agreement
     chk.parallel(prog, [rule_a, attribute_definedness, lambda c, p: table_divisors(c, p, "C16.c"), first_element_sites,
@@ -780,6 +814,7 @@ def run(chk, prog, tier):
     deepening_progress(chk, prog)
     et0_floor(chk, prog)
     runoff_quotient(chk, prog)
+    state_field_divisors(chk, prog)
     from .c07 import finished_at_window_end
     finished_at_window_end(chk, prog, "C16.m")
     from ._loops import loop_variants
